@@ -108,6 +108,12 @@ theorem adoptAll_eraseSN (pf : Flags) (pk : CompKind) : ∀ (items acc : List (K
       simp only [Except.map]
       exact adoptAll_eraseSN pf pk rest acc' hi.2 (setChild_allCons hi.1 hacc hs)
 
+theorem eraseF_promotedFlags (sf of : Flags) : eraseF (promotedFlags sf of) = eraseF sf := by
+  unfold promotedFlags; split <;> rfl
+
+theorem promotedFlags_eraseF (sf of : Flags) : promotedFlags (eraseF sf) (eraseF of) = eraseF sf := by
+  unfold promotedFlags; rw [eSafe_eraseF]; rfl
+
 theorem maybePromote_eraseSN (sf : Flags) (sk : CompKind) {scs : List (Key × Node)} (o : Node)
     (hscs : allConsistent scs = true) :
     maybePromote (eraseF sf) sk (eraseSNList scs) (eraseSN o) = eraseRes (maybePromote sf sk scs o) := by
@@ -124,9 +130,9 @@ theorem maybePromote_eraseSN (sf : Flags) (sk : CompKind) {scs : List (Key × No
       all_goals rfl
     | ok cs' =>
       simp only [hh, Except.map] at ha
-      simp only [eraseSN, maybePromote, ha, hh]
+      simp only [eraseSN, maybePromote, ha, hh, promotedFlags_eraseF]
       repeat' split
-      all_goals rfl
+      all_goals first | rfl | (simp only [eraseRes, Except.map, eraseSN, eraseF_promotedFlags])
 
 theorem finishMerge_eraseSN (sf : Flags) (sk : CompKind) {scs : List (Key × Node)} (o : Node)
     (hscs : allConsistent scs = true) :
